@@ -101,6 +101,10 @@ def scenario_scope(res, pid, rng, tier):
     variants += [dict(prefixes=None, nets=["96.0.0.0/4"]), dict(prefixes=["10.0.0.0/8", "10.0.1.0/24"], nets=None),
                  dict(prefixes=["10.0.1.0/24", "10.0.0.0/8"], nets=None), dict(prefixes=["192.0.2.0/24", "10.0.0.0/8"], nets=None),
                  dict(prefixes=None, nets=None, b4=32, b6=32), dict(prefixes=None, nets=None, b4=32, b6=64), dict(prefixes=None, nets=["8.0.0.0/6", "44.0.0.0/8"])]
+    # the same network listed twice / in two notations / nested, in the preserved networks and in the preserved prefixes
+    variants += [dict(prefixes=None, nets=[net, net]), dict(prefixes=None, nets=["10.0.0.0/8", "172.16.0.0/12", "10.0.0.0/8"]),
+                 dict(prefixes=None, nets=[net, net.replace("/16", "/255.255.0.0")]), dict(prefixes=["10.0.0.0/8", "10.0.0.0/8"], nets=None),
+                 dict(prefixes=None, nets=["10.0.0.0/8", "10.1.0.0/16", "10.0.0.0/8"]), dict(prefixes=None, nets=["44.0.0.0/8", "44.0.0.0/255.0.0.0"], b4=0)]
     lines += ["ip address %s" % a for a in ("96.1.2.3", "100.1.2.3", "111.2.3.4", "95.255.0.1", "10.0.0.5", "10.0.2.5", "10.0.1.9", "8.1.1.1", "11.1.1.1", "12.1.1.1",
                                             "192.000.002.010", "192.0.2.010", "010.000.001.009", "44.001.002.003")]
     lines += ["set address 2001:DB8:0:0:0:0:0:1", "set address 2001:0db8::0001"]
